@@ -18,3 +18,5 @@ def rules(ctx):
     S.state_writer_rules(ctx)
     S.header_codec_rules(ctx)
     S.child_pair_rules(ctx)
+    S.root_pair_rules(ctx)
+    S.separator_cut_rules(ctx)
